@@ -353,6 +353,24 @@ def rewrite(toks, rules, opts, panic_counter):
                     p2 = next_sig(toks, p + 1)      # closing '>' of Rc
                     out.extend(rewrite(inner, rules, opts, panic_counter))
                     rules.hit("R7.type"); i = p2 + 1; continue
+        # R14b: X.map(|pat| body) on an Option receiver (opts mapopt) -> match X { Some(pat) => Some(body), None => None }
+        if t.kind == "punct" and t.text == "." and opts.get("mapopt"):
+            j = next_sig(toks, i + 1)
+            if j < n and toks[j].kind == "ident" and toks[j].text == "map":
+                p = next_sig(toks, j + 1)
+                if toks[p].text == "(":
+                    e = match_close(toks, p)
+                    q = next_sig(toks, p + 1)
+                    if toks[q].text == "|":
+                        q2 = q + 1
+                        while toks[q2].text != "|": q2 += 1
+                        pat = text(toks[q + 1:q2]).strip()
+                        cbody = text(rewrite(toks[q2 + 1:e], rules, opts, panic_counter)).strip()
+                        r = recv_start(out)
+                        recv = text(out[r:]).strip()
+                        del out[r:]
+                        out.append(gen("(match %s { Some(%s) => Some(%s), None => None })" % (recv, pat, cbody)))
+                        rules.hit("R14.mapopt"); i = e + 1; continue
         # R14: X.map(|pat| body) on a Result receiver (opts mapres) -> match X { Ok(pat) => Ok(body), Err(e__) => Err(e__) }
         if t.kind == "punct" and t.text == "." and opts.get("mapres"):
             j = next_sig(toks, i + 1)
@@ -517,6 +535,9 @@ def stmt_end_after(toks, i, hi):
     while k < hi:
         t = toks[k]
         if t.kind == "punct":
+            if t.text == "{" and depth == 0:
+                # the call is in the head of an `if` / `if let` / `while` / `match`: the first position after it is the block start
+                return k + 1
             if t.text in rslex.OPEN: depth += 1
             elif t.text in rslex.CLOSE:
                 depth -= 1
@@ -626,6 +647,11 @@ def gen_fn(repo, fs, unit, em, mode, canary=False):
     keep_trait = bool(fs.opts.get("keep-trait"))
     sig_txt = re.sub(r"^\s*(pub\s+)?", "" if keep_trait else "pub ", sig_txt, count=1)
     if keep_trait is False and not sig_txt.startswith("pub "): sig_txt = "pub " + sig_txt
+    if fs.opts.get("mutparam"):
+        for pn in str(fs.opts["mutparam"]).split(","):
+            new = re.sub(r"([(,]\s*)%s\s*:" % re.escape(pn), r"\1mut %s:" % pn, sig_txt, count=1)
+            if new == sig_txt: raise LostAnchor("%s: mutparam %s not found" % (fs.qname, pn))
+            sig_txt = new; unit.rules.hit("R7.mutparam")
     if fs.opts.get("mutself"):
         new = re.sub(r"\(\s*&\s*self\b", "(&mut self", sig_txt, count=1)
         if new == sig_txt: raise LostAnchor("%s: mutself but no &self receiver" % fs.qname)
